@@ -5,6 +5,9 @@ import (
 	"bufio"
 	"encoding/json"
 	"fmt"
+	"io"
+	"net/http"
+	"net/http/httptest"
 	"os"
 	"path/filepath"
 	"regexp"
@@ -546,7 +549,7 @@ type C19ConcCase struct {
 
 func genC19Conc(t *rapid.T) *C19ConcCase {
 	return &C19ConcCase{Goroutines: rapid.SampledFrom([]int{2, 4, 8}).Draw(t, "g"), PerG: rapid.IntRange(3, 15).Draw(t, "perg"),
-		Format: rapid.SampledFrom([]string{"JSON", "Native"}).Draw(t, "format"), Writer: rapid.SampledFrom([]string{"Serial", "Concurrent"}).Draw(t, "writer"),
+		Format: rapid.SampledFrom([]string{"JSON", "Native"}).Draw(t, "format"), Writer: rapid.SampledFrom([]string{"Serial", "Concurrent", "HTTPS"}).Draw(t, "writer"),
 		HdrVal: rapid.SampledFrom(c19Hostile).Draw(t, "hdr")}
 }
 
@@ -559,6 +562,20 @@ func checkC19Conc(c *C19ConcCase) Result {
 	_ = os.MkdirAll(dir, 0o755)
 	defer os.RemoveAll(dir)
 	target := filepath.Join(dir, "audit.log")
+	// HTTPS writer: every record is POSTed to a collector in this process
+	var bodies [][]byte
+	var bmu sync.Mutex
+	if c.Writer == "HTTPS" {
+		srv := httptest.NewServer(http.HandlerFunc(func(rw http.ResponseWriter, r *http.Request) {
+			b, _ := io.ReadAll(r.Body)
+			bmu.Lock()
+			bodies = append(bodies, b)
+			bmu.Unlock()
+			rw.WriteHeader(200)
+		}))
+		defer srv.Close()
+		target = srv.URL + "/audit"
+	}
 	conf := fmt.Sprintf("SecRuleEngine On\nSecAuditEngine On\nSecAuditLogParts ABHKZ\nSecAuditLogFormat %s\nSecAuditLogType %s\nSecAuditLog %s\nSecAuditLogStorageDir %s\nSecAction \"id:1,phase:1,log,auditlog,pass,msg:'m'\"\n",
 		c.Format, c.Writer, target, dir)
 	w, err := newWAF(conf)
@@ -603,6 +620,50 @@ func checkC19Conc(c *C19ConcCase) Result {
 	data, _ := os.ReadFile(target)
 	got := map[string]int{}
 	switch {
+	case c.Writer == "HTTPS":
+		// each POST body is one record. The writer gives up after 1 s, so on a busy machine a record may
+		// legitimately be missing; a damaged, foreign or repeated record is never legitimate.
+		bmu.Lock()
+		defer bmu.Unlock()
+		for _, b := range bodies {
+			id := ""
+			if c.Format == "JSON" {
+				var doc map[string]any
+				if err := json.Unmarshal(b, &doc); err != nil {
+					res.Fail = failf("record received by the HTTPS collector does not parse (damaged while in flight): %v: %q", err, b)
+					return res
+				}
+				tr, _ := doc["transaction"].(map[string]any)
+				id = fmt.Sprint(tr["id"])
+			} else {
+				if msg := checkNative(b, "ABHKZ", ""); msg != "" {
+					res.Fail = failf("native record received by the HTTPS collector is damaged: %s: %q", msg, b)
+					return res
+				}
+				for _, l := range strings.Split(string(b), "\n") {
+					if f := strings.Fields(l); len(f) >= 3 && strings.HasPrefix(f[2], "cc") {
+						id = f[2]
+						break
+					}
+				}
+			}
+			if !want[id] {
+				res.Fail = failf("HTTPS collector received a record for unknown transaction %q: %q", id, b)
+				return res
+			}
+			got[id]++
+			if got[id] > 1 {
+				res.Fail = failf("transaction %s was delivered %d times to the HTTPS collector", id, got[id])
+				return res
+			}
+		}
+		if len(got) < len(want) {
+			res.Labels = append(res.Labels, "https-record-missing(timeout)")
+		}
+		res.NonTrivial = true
+		res.Labels = append(res.Labels, "concurrent:"+c.Writer+"/"+c.Format)
+		statExtra("concurrent-transactions", int64(len(want)))
+		return res
 	case c.Writer == "Serial" && c.Format == "JSON":
 		for _, l := range strings.Split(strings.TrimRight(string(data), "\n"), "\n") {
 			var doc map[string]any
